@@ -11,10 +11,20 @@
 \*   node untimed : Procs n1,n2,n3  NSlots 2  MaxTicks 0  Faults SetNX,Entropy  NCands 6  MaxCalls 2   (4 527 states)
 \*   node timed   : (thorough) Procs n1,n2 (exhaustive: n1,n2,n3, MaxTicks 5)  NSlots 2  TTLTicks 3  MaxTicks 4
 \*                  RenewTier/Wiring = claim/split (repaired code), local/same (redis mode), local/split (as it was)
-\*   node renewfail: (thorough) Procs n1,n2  NSlots 1  MaxTicks 8  MaxRenewFails 3  MaxCalls 3            (8 841 states)
+\*   node renewfail: (thorough, real waiting) Procs n1,n2  NSlots 1  MaxTicks 8  MaxRenewFails 3  MaxCalls 3  (9 909 states)
+\*   node lease   : the lease over time, driven under the fake clock in both tiers.  MaxConsecFails 1 (transient faults)
+\*                  quick   : s1      Procs n1,n2  NSlots 1  MaxTicks 6  MaxRenewFails 3  Faults SetNX,Delete    (9 480 states)
+\*                            long:s1 Procs n1     NSlots 1  MaxTicks 14 MaxRenewFails 6                         (1 107 states)
+\*                  thorough: s2      Procs n1,n2  NSlots 2  MaxTicks 5  MaxRenewFails 3  Faults SetNX,Delete   (70 797 states)
+\*                            long:s1 Procs n1,n2  NSlots 1  MaxTicks 12 MaxRenewFails 5                        (17 908 states)
+\*                            exhaustive: n1,n2,n3 x 1 slot x 6 periods (116 083), x 2 slots x 5 periods (891 822), and
+\*                            Realloc TRUE / StopChan "fresh" (allocator re-used after Release, repaired: 50 702)
+\*                  HbGiveUp "never", RenewTTLTicks 3 = TTLTicks, Realloc FALSE, StopChan "once": the code as it is; the named
+\*                  deviations: IdGen_show_hbgiveup / hbgiveup2 / shortlease / outage / realloc .cfg
 \* INVS: gen both: GenOK;  gen SetNX: Unique HeldDisjoint NoTaken HeldMarked Exhaustion;  gen fallback: NoTaken
 \* Exhaustion FallbackOnlyDeviation;  node: NodeUnique NoForeign ClaimNeverExpiresUnderLiveHolder NoWrongTier
-\* FailedHoldsNothing Unique HeldDisjoint;  node as it was: NoForeign NodeOnlyDeviation.
+\* FailedHoldsNothing Unique HeldDisjoint HeartbeatRunsWhileLive LeaseMargin NoHeartbeatWithoutHolder;  node as it was: NoForeign
+\* NodeOnlyDeviation.
 \* IdGen_show_*.cfg: the same models with the plain property - TLC finds the duplicate.
 CONSTANTS
   Mode = "@@MODE@@"
@@ -31,6 +41,12 @@ CONSTANTS
   MaxTicks = @@MAXTICKS@@
   Faults = {@@FAULTS@@}
   MaxRenewFails = @@MAXRF@@
+  MaxConsecFails = @@MAXCF@@
+  HbGiveUp = "never"
+  GiveUpAfter = 0
+  RenewTTLTicks = 3
+  Realloc = @@REALLOC@@
+  StopChan = "@@STOPCHAN@@"
   WithLapse = @@LAPSE@@
   Emit = @@EMIT@@
 INIT Init
